@@ -604,3 +604,15 @@ Proof.
   induction rs as [|r t IH]; [exists []; reflexivity|]. destruct IH as (t' & Et). destruct (range_remove_total e r) as (r' & Er).
   exists (r' :: t'). cbn. rewrite Er, Et. reflexivity.
 Qed.
+
+Lemma remove_upto_len e : forall rs rs', ranges_remove_upto e rs = Some rs' -> (length (ranges_all rs') <= length (ranges_all rs))%nat.
+Proof.
+  induction rs as [|r t IH]; intros rs' E.
+  - cbn in E. injection E as <-. cbn. lia.
+  - cbn in E. destruct (range_remove e r) as [r'|] eqn:Er; [|discriminate].
+    destruct (ranges_remove_upto e t) as [t'|] eqn:Et; [|discriminate]. injection E as <-.
+    specialize (IH t' eq_refl). unfold ranges_all in *. cbn [flat_map]. rewrite !app_length.
+    assert (length (r_hdrs r') <= length (r_hdrs r))%nat.
+    { unfold range_remove in Er. destruct (_ <=? _); [|discriminate]. injection Er as <-. cbn. rewrite skipn_length. lia. }
+    lia.
+Qed.
